@@ -421,8 +421,11 @@ class HttpCommunicationLayer(CommunicationLayer):
                     "sender-comp": msg.src_comp,
                     "dest-comp": msg.dest_comp,
                     "type": str(msg.msg_type),
+                    "Content-Type": "application/json",
                 },
-                json=msg_repr,
+                # Encoded here and not by requests (json=...), which rejects
+                # the infinite floats used for bounds and hard constraints.
+                data=json.dumps(msg_repr),
                 timeout=0.5,
             )
         except ConnectionError:
